@@ -496,3 +496,31 @@ Theorem float64_selections_exact :
   (forall (A : Type) (ts : A -> Z) (l : list A) x, argmax_ts ts l = Some x -> List.In x l).
 Proof. split; [exact qmin_l_selects|]. split; [exact qmax_l_selects|]. split; [exact @argmin_selects|exact @argmax_selects]. Qed.
 Print Assumptions float64_selections_exact.
+
+(* ---- line_format in the log part of a metric query (builder b4-lf): LineFormatPlanner replaces ONE column of Main's select;
+   FROM / WHERE / PREWHERE / joins / WITHs and both WITH caches are Main's, the plan object keeps no Process-time state, one
+   context id is drawn ... *)
+From Qryn Require model.LogqlTemplate proofs.LogqlTemplateProofs.
+Theorem line_format_rewrites_only_the_line : forall t main c st q st' p',
+  process (PLineFormatP t main) c st = Some (q, st', p') ->
+  exists req st1 main' nodes,
+    process main c st = Some (req, st1, main') /\ LogqlTemplate.tpl_parse t = LogqlTemplate.TOk nodes /\
+    q = set_cols (patch_col (s_cols req) "string" (fun _ => LogqlTemplate.tpl_sql nodes)) req /\
+    fp_cache st' = fp_cache st1 /\ labels_cache st' = labels_cache st1 /\ pid st' = (pid st1 + 1)%N /\
+    p' = PLineFormatP t main'.
+Proof. exact LogqlTemplateProofs.line_format_process. Qed.
+Print Assumptions line_format_rewrites_only_the_line.
+(* ... and bytes_over_time / bytes_rate behind it sum the length of the FORMATTED line: the select LRAPlanner aggregates over
+   carries the format() expression under the name _string, the value column is the byte aggregate over _string *)
+Theorem bytes_aggregates_see_the_formatted_line : forall t main c st req st1 main' nodes f dur wl v,
+  process main c st = Some (req, st1, main') -> LogqlTemplate.tpl_parse t = LogqlTemplate.TOk nodes -> lra_val_of f dur = Some v ->
+  has_column (s_cols req) "string" = true -> has_column (s_cols req) "_string" = false ->
+  exists q st' p' m1,
+    process (PLraP f dur wl (PLineFormatP t main)) c st = Some (q, st', p') /\
+    s_from q = Some (Col (WRef "agg_a" m1) "time_series") /\
+    get_col (s_cols m1) "_string" = Some (LogqlTemplate.tpl_sql nodes) /\
+    get_col (s_cols q) "value" = Some (lra_val_sql v).
+Proof. exact LogqlTemplateProofs.formatted_line_reaches_the_byte_aggregation. Qed.
+Print Assumptions bytes_aggregates_see_the_formatted_line.
+Example bytes_aggregates_hyp : forall c, has_column (s_cols (main_init c)) "string" = true /\ has_column (s_cols (main_init c)) "_string" = false.
+Proof. exact LogqlTemplateProofs.formatted_line_hyp. Qed.
